@@ -61,6 +61,13 @@ def check(repo: Repo, rep, tier):
     align_window(repo, rep)
     align_complete(repo, rep)
     ctx_restore(repo, rep)
+    from .C18 import definite_init
+    from .C03 import element_parens
+    from .C12 import fmt_taint_fragment
+
+    definite_init(repo, rep)
+    element_parens(repo, rep)
+    fmt_taint_fragment(repo, rep)
 
 
 def cont(repo: Repo, rep):
